@@ -151,6 +151,14 @@ MEDDLY::initializer_list* MEDDLY::defaultInitializerList(initializer_list* prev)
 
 void MEDDLY::initialize()
 {
+    //
+    // Check this before building the default list: constructing the
+    // default initializers already resets static settings (e.g., the
+    // compute table style) that a running library still depends on.
+    //
+    if (initializer_list::libraryIsRunning()) {
+        throw error(error::ALREADY_INITIALIZED, __FILE__, __LINE__);
+    }
     initializer_list::initializeLibrary( defaultInitializerList(0) );
 }
 
